@@ -18,7 +18,8 @@ def onErrorEnter (id : Nat) (s : RState) : RState :=
 /-- **C13 (exact replacement)**: if the guarded element raises an `Exception` — after emitting anything, at any depth,
 inside any number of unfinished translation sub-streams — then `tal:on-error` continues with the fallback from a
 state whose output is *exactly* what it was before the element (prefix untouched, partial output discarded), with
-`error` bound and the handler called once; the rest of the element's effect on the output is the fallback's. -/
+`error` bound and the handler called once; the rest of the element's effect on the output is the fallback's; the error records of the handled failure are dropped
+(what the list held when the element was entered stays). -/
 theorem C13_exact (cfg : ECfg) (hq : cfg.tc.q.sharedFallbackVar = false) (al : List (Str × Val)) (f id : Nat)
     (fallback node : Node) (s sb : RState) (top : Str) (rest : List Str) (ex : Exc)
     (hs : s.streams = top :: rest)
@@ -27,6 +28,7 @@ theorem C13_exact (cfg : ECfg) (hq : cfg.tc.q.sharedFallbackVar = false) (al : L
     (htok : sb.x.token.isSome = true) :
     ∃ s2, s2.streams = top :: rest ∧ s2.handled = sb.handled + 1 ∧
       (∃ line col, s2.env.get (lit "error") = some (Val.errorInfo ex.cls ex.msg line col)) ∧
+      s2.errs = sb.errs.extract 0 s.errs.size ∧
       eval cfg al (f + 1) (.onError id fallback node) s = eval cfg al f fallback s2 := by
   obtain ⟨extra, δ, hδ⟩ := ((good_eval cfg hq al f node).at_ (onErrorEnter id s) top rest (by simpa [onErrorEnter] using hs)).2 ex sb hbody
   cases ho : onErrorHandle cfg id (1 + rest.length) top.length ex sb with
@@ -38,8 +40,15 @@ theorem C13_exact (cfg : ECfg) (hq : cfg.tc.q.sharedFallbackVar = false) (al : L
     | some t => simp [ht] at ho
   | some s2 =>
     obtain ⟨hx, hh, _⟩ := C13_handler_exact cfg hq id top δ rest extra ex sb s2 hδ ho
-    refine ⟨{ s2 with tmaps := s2.tmaps.drop (s2.tmaps.length - s.tmaps.length) }, hx, hh, ?_, ?_⟩
+    refine ⟨{ s2 with tmaps := s2.tmaps.drop (s2.tmaps.length - s.tmaps.length), errs := s2.errs.extract 0 s.errs.size },
+      hx, hh, ?_, ?_, ?_⟩
     · exact C13_error_bound cfg id _ _ ex sb s2 ho
+    · have : s2.errs = sb.errs := by
+        unfold onErrorHandle at ho
+        split at ho
+        · cases ho
+        · simp only [Option.some.injEq] at ho; rw [← ho]
+      simp only [this]
     · have hlen : s.streams.length = 1 + rest.length := by rw [hs]; simp [Nat.add_comm]
       have hhd : (s.streams.headD []).length = top.length := by rw [hs]; rfl
       simp only [eval, hq, Bool.false_eq_true, if_false]
@@ -100,5 +109,21 @@ theorem C13_base_exception_propagates (cfg : ECfg) (hq : cfg.tc.q.sharedFallback
     have hc := heq.symm.trans hbody
     cases hc
     simp [hexc]
+
+/-- **C12 (a handled failure leaves no record)**: the fallback of `tal:on-error` starts with at most the error records
+the list held when the element was entered — whatever the functions the exception passed through (macros, slot
+fillers) appended is dropped, so a later failure is reported alone (the behaviour of /repo after the D-12b fix) -/
+theorem C12_handled_records_dropped (cfg : ECfg) (hq : cfg.tc.q.sharedFallbackVar = false) (al : List (Str × Val)) (f id : Nat)
+    (fallback node : Node) (s sb : RState) (top : Str) (rest : List Str) (ex : Exc)
+    (hs : s.streams = top :: rest)
+    (hbody : eval cfg al f node (onErrorEnter id s) = .raised ex sb)
+    (hexc : isSubclass cfg ex.cls ["Exception"] = true)
+    (htok : sb.x.token.isSome = true) :
+    ∃ s2, s2.errs.size ≤ s.errs.size ∧ s2.errs = sb.errs.extract 0 s.errs.size ∧
+      eval cfg al (f + 1) (.onError id fallback node) s = eval cfg al f fallback s2 := by
+  obtain ⟨s2, _, _, _, herr, hev⟩ := C13_exact cfg hq al f id fallback node s sb top rest ex hs hbody hexc htok
+  refine ⟨s2, ?_, herr, hev⟩
+  rw [herr, Array.size_extract]
+  omega
 
 end ChamVerif
